@@ -111,6 +111,7 @@ class Inst:
     opened: int = 0
     closed: int = 0
     dml: int = 0
+    dml_ok: int = 0
     commits: int = 0
     execs: int = 0
     used_shared: bool = False
@@ -206,6 +207,13 @@ class Tracer:
             c.dml += 1
             self.last_writer = c.fn
 
+    def on_exec_done(self, conn: Any, sql: str) -> None:
+        if self.mode is None or self.cur is None:
+            return
+        verb = (sql.strip().split() or [""])[0].upper()
+        if verb not in gen.READ_VERBS:
+            self.cur.dml_ok += 1
+
     def on_commit(self, conn: Any) -> None:
         c = self.ensure(conn)
         if c is not None:
@@ -220,7 +228,7 @@ class Tracer:
                 c.closed_shared = True
                 self.shared_closed_by = c.fn
         else:
-            if c is not None:
+            if c is not None and not getattr(conn, "_c21_closed", False):
                 c.closed += 1
             if conn in self.open_conns:
                 self.open_conns.remove(conn)
@@ -249,7 +257,8 @@ def _section_from_frames() -> tuple[str, Any]:
     while f is not None:
         fname = f.f_code.co_filename
         name = f.f_code.co_name
-        if (fname.endswith(WS_FILE) or fname.endswith(SS_FILE)) and name not in (gen.PROVIDER,) + tuple(gen.OPENERS):
+        if (fname.endswith(WS_FILE) or fname.endswith(SS_FILE)) and name not in (gen.PROVIDER,) + tuple(gen.OPENERS) \
+                and name not in CTX_METHODS:
             tag = "ws" if fname.endswith(WS_FILE) else "ss"
             return f"{tag}.{name}", f.f_locals.get("self")
         f = f.f_back
@@ -259,15 +268,20 @@ def _section_from_frames() -> tuple[str, Any]:
 class TracingCursor(sqlite3.Cursor):
     def execute(self, sql: str, *a: Any) -> Any:  # type: ignore[override]
         TR.on_exec(self.connection, sql)
-        return super().execute(sql, *a)
+        r = super().execute(sql, *a)
+        TR.on_exec_done(self.connection, sql)
+        return r
 
     def executemany(self, sql: str, *a: Any) -> Any:  # type: ignore[override]
         TR.on_exec(self.connection, sql)
-        return super().executemany(sql, *a)
+        r = super().executemany(sql, *a)
+        TR.on_exec_done(self.connection, sql)
+        return r
 
     def executescript(self, sql: str) -> Any:  # type: ignore[override]
         TR.on_exec(self.connection, sql)
         r = super().executescript(sql)
+        TR.on_exec_done(self.connection, sql)
         TR.on_commit(self.connection)
         return r
 
@@ -280,15 +294,20 @@ class TracingConnection(sqlite3.Connection):
 
     def execute(self, sql: str, *a: Any) -> Any:  # type: ignore[override]
         TR.on_exec(self, sql)
-        return super().execute(sql, *a)
+        r = super().execute(sql, *a)
+        TR.on_exec_done(self, sql)
+        return r
 
     def executemany(self, sql: str, *a: Any) -> Any:  # type: ignore[override]
         TR.on_exec(self, sql)
-        return super().executemany(sql, *a)
+        r = super().executemany(sql, *a)
+        TR.on_exec_done(self, sql)
+        return r
 
     def executescript(self, sql: str) -> Any:  # type: ignore[override]
         TR.on_exec(self, sql)
         r = super().executescript(sql)
+        TR.on_exec_done(self, sql)
         TR.on_commit(self)
         return r
 
@@ -330,6 +349,9 @@ class Patches:
         setattr(obj, name, value)
 
     def __enter__(self) -> "Patches":
+        CTX_METHODS.clear()
+        for c in self.table["classes"].values():
+            CTX_METHODS.update(c.get("ctx_methods", []))
         from llama_agents.server._store import abstract_workflow_store as aws
         from llama_agents.server._store.sqlite import sqlite_state_store as sss
         from llama_agents.server._store.sqlite import sqlite_workflow_store as sws
@@ -375,10 +397,20 @@ class _TracedCM:
         return self.inner.__exit__(*exc)
 
 
+CTX_METHODS: set[str] = set()  # connection-yielding context-manager methods (from the generated table): not sections
+
+
+def _caller_section() -> str:
+    f = sys._getframe(2)
+    while f is not None and (f.f_code.co_name in CTX_METHODS or f.f_code.co_filename.endswith("contextlib.py")):
+        f = f.f_back
+    return f.f_code.co_name if f is not None else "?"
+
+
 def _wrap_provider(tag: str, orig: Any) -> Any:
     @functools.wraps(orig)
     def provider(self: Any, *a: Any, **k: Any) -> Any:
-        TR.acquire(f"{tag}.{sys._getframe(1).f_code.co_name}", self)
+        TR.acquire(f"{tag}.{_caller_section()}", self)
         r = orig(self, *a, **k)
         if isinstance(r, sqlite3.Connection):
             TR.got(r)
@@ -715,6 +747,16 @@ class OpGen:
                 self.nev[run] += 1
             return op
         if r < 0.40:
+            if rng.random() < 0.12:  # a read that raises inside its section (unbindable parameter)
+                return rng.choice([
+                    {"op": "ws.query_events", "run": run, "after": {"bad": 1}, "limit": None},
+                    {"op": "ws.query_events", "run": run, "after": None, "limit": {"bad": 1}},
+                    {"op": "ws.get_ticks", "run": {"bad": 1}},
+                    {"op": "ws.stream_ticks", "run": {"bad": 1}},
+                    {"op": "ws.get_legacy_ctx", "run": {"bad": 1}},
+                    {"op": "ws.query", "q": {"handler_id_in": [{"bad": 1}]}},
+                    {"op": "ws.delete", "q": {"run_id_in": [{"bad": 1}]}},
+                ])
             return {"op": "ws.query_events", "run": rng.choice(RUNS + ["nope"]),
                     "after": rng.choice([None, None, -1, 0, 1, 3]), "limit": rng.choice([None, None, 0, 1, 2])}
         if r < 0.43:
@@ -798,6 +840,11 @@ CORPUS: list[dict] = [
     {"label": "failing statements leave the shared connection usable",
      "ops": [{"op": "ws.append_event", "run": None, "value": {}, "type": "X", "types": None},
              {"op": "ws.query", "q": {}},
+             {"op": "ws.query_events", "run": "r0", "after": {"bad": 1}, "limit": None},
+             {"op": "ws.query_events", "run": "r0", "after": None, "limit": None},
+             {"op": "ws.get_ticks", "run": {"bad": 1}}, {"op": "ws.query", "q": {"handler_id_in": [{"bad": 1}]}},
+             {"op": "ws.delete", "q": {"run_id_in": [{"bad": 1}]}}, {"op": "ws.get_legacy_ctx", "run": {"bad": 1}},
+             {"op": "ws.stream_ticks", "run": {"bad": 1}}, {"op": "ws.get_ticks", "run": "r0"},
              {"op": "ws.append_tick", "run": {"bad": 1}, "data": {"n": 1}},
              {"op": "ws.append_tick", "run": "r0", "data": {"bad": {"__unserialisable__": True}}},
              {"op": "ws.append_tick", "run": "r0", "data": {"n": 1}}, {"op": "ws.get_ticks", "run": "r0"},
@@ -970,7 +1017,7 @@ def run_case(case: dict, table: dict, out: Outcome, tmp: str, idx: int) -> CaseR
                 cr.impl.append(f"store={len(sides[1].objs) - 1} given={1 if given else 0}")
             for j, ip in enumerate(tp):
                 is_ = ts[j] if j < len(ts) else None
-                cr.lines.append(f"sec|{ip.obj}|{ip.fn}|{1 if ip.outcome == 'ok' else 0}|{1 if ip.dml else 0}")
+                cr.lines.append(f"sec|{ip.obj}|{ip.fn}|{1 if ip.outcome == 'ok' else 0}|{1 if ip.dml else 0}|{1 if ip.dml_ok else 0}")
                 if is_ is not None and (is_.fn != ip.fn or is_.obj != ip.obj):
                     cr.impl.append(f"single ran {is_.fn}@{is_.obj} where per-call ran {ip.fn}@{ip.obj}")
                     continue
@@ -1008,6 +1055,35 @@ def run_case(case: dict, table: dict, out: Outcome, tmp: str, idx: int) -> CaseR
         except Exception:
             pass
     return cr
+
+
+def table_line(table: dict) -> str:
+    """The table checks recomputed on the Python side (the Lean side evaluates `tableOk` etc. on the generated file)."""
+    def life(sec: dict, key: str) -> dict:
+        l = sec[key]
+        if key == "shared" and sec["acquire"] == "own":
+            l = {"present": False}
+        if not l.get("present") and "delegated" not in l:
+            return ({"closeOk": True, "closeErr": True, "commitOk": True, "commitErr": False, "pendingOnErr": False}
+                    if key == "fresh" else
+                    {"closeOk": False, "closeErr": False, "commitOk": True, "commitErr": False, "pendingOnErr": False})
+        return l
+
+    fl = table["flags"]
+    names = {s["qual"] for s in table["secs"]}
+    sec_ok = all(
+        not life(s, "shared")["closeOk"] and not life(s, "shared")["closeErr"]
+        and (not s["writes"] or life(s, "shared")["commitOk"]) and not life(s, "shared")["pendingOnErr"]
+        and (not s["writes"] or life(s, "fresh")["commitOk"]) and not life(s, "fresh")["pendingOnErr"]
+        and s["acquire"] != "unknown" for s in table["secs"])
+    closed = all(n in names for o in table["ops"] + table["static_ops"] for n in o["secs"])
+    ok = (fl["ctorOpensShared"] and fl["wsShared"] and fl["ssShared"] and fl["createPassesShared"] and table["unknowns"] == 0
+          and sec_ok and closed and bool(table["ops"]))
+    noleak = all(life(s, "fresh")["closeOk"] and life(s, "fresh")["closeErr"] for s in table["secs"])
+    inst = {n for o in table["ops"] for n in o["secs"]}
+    oneconn = all(s["qual"] not in inst or s["acquire"] == "provider" for s in table["secs"])
+    return (f"ok={int(ok)} noleak={int(noleak)} oneconn={int(oneconn)} secs={len(table['secs'])} ops={len(table['ops'])} "
+            f"unknowns={table['unknowns']}")
 
 
 def strip_model(line: str) -> str:
@@ -1111,7 +1187,7 @@ def run(env: Env) -> Outcome:
         if isinstance(rc, dict) and "ops" in rc and "concurrent" not in rc:
             cases.append(rc)
     cases += CORPUS
-    ncases = env.budget(14, 160)
+    ncases = env.budget(14, 300)
     length = 60 if env.tier == "quick" else 110
     for _ in range(ncases):
         g = OpGen(env.rng)
@@ -1119,7 +1195,7 @@ def run(env: Env) -> Outcome:
     # database files on tmpfs when there is one: every commit fsyncs
     tmp = tempfile.mkdtemp(prefix="c21_", dir="/dev/shm" if os.path.isdir("/dev/shm") and os.access("/dev/shm", os.W_OK) else None)
     lines: list[str] = ["table"]
-    impl: list[str] = [f"ok=1 noleak=1 oneconn=1 secs={len(table['secs'])} ops={len(table['ops'])} unknowns=0"]
+    impl: list[str] = [table_line(table)]
     try:
         with Patches(table):
             for idx, case in enumerate(cases):
@@ -1146,7 +1222,7 @@ def run(env: Env) -> Outcome:
     finally:
         shutil.rmtree(tmp, ignore_errors=True)
     # malformed lines
-    bad = ["sec|x|ws.query|1|0", "sec|-|ws.query|2|0", "new|", "nonsense", "sec|-|ws.query|1"]
+    bad = ["sec|x|ws.query|1|0|0", "sec|-|ws.query|2|0|0", "new|", "nonsense", "sec|-|ws.query|1|0"]
     lines += bad
     impl += ["bad-op"] * len(bad)
     try:
@@ -1157,6 +1233,17 @@ def run(env: Env) -> Outcome:
     # harness-made lines (unlisted-op, unlisted-section, extra-sections) are answered `bad-op` by the driver: a divergence
     out.traces_validated = sum(1 for l in lines if l.startswith("sec|") or l.startswith("new|") or l == "final")
     out.disagreements_checked = len(lines)
+    # `final`: the model's content is a version counter, so it can only promise agreement, not predict a difference
+    # (a lingering uncommitted change may be overwritten later, a DELETE may match nothing): one-directional fields
+    for i, (l, m) in enumerate(zip(lines, model_out)):
+        if l == "final" and i < len(impl):
+            mf = dict(x.split("=") for x in m.split(" ") if "=" in x)
+            f = dict(x.split("=") for x in impl[i].split(" ") if "=" in x)
+            if mf.get("same") == "0":
+                f["same"] = "0"
+            if mf.get("pend") == "1":
+                f["pend"] = "1"
+            impl[i] = f"same={f.get('same')} pend={f.get('pend')} open={f.get('open')}"
     d = diff_streams("sqliteconn", lines, model_out, impl)
     if d is not None:
         out.divergences.append(d)
